@@ -97,6 +97,24 @@ fn annotation(error: &FormattingError) -> Option<Annotation<'_>> {
     let (range_start, range_length) = error.format_len();
     let range_end = range_start + range_length;
 
+    // A line overflow is measured in columns (a tab counts as `tab_spaces`, a wide character as
+    // one), while the renderer wants byte offsets into the line and panics on a range that is
+    // out of bounds or not on a character boundary. Translate the columns to the offsets of the
+    // corresponding characters, clamped to the end of the line.
+    let (range_start, range_end) = if matches!(error.kind, ErrorKind::LineOverflow(..)) {
+        let byte_offset = |column: usize| {
+            error
+                .line_buffer
+                .char_indices()
+                .nth(column)
+                .map_or(error.line_buffer.len(), |(offset, _)| offset)
+        };
+        (byte_offset(range_start), byte_offset(range_end))
+    } else {
+        (range_start, range_end)
+    };
+    let range_length = range_end - range_start;
+
     if range_length > 0 {
         Some(Level::Error.span(range_start..range_end))
     } else {
